@@ -251,19 +251,29 @@ func validateNonZero(v interface{}, name string) error {
 	return ErrZeroValue
 }
 
+// durationOf reports whether v holds a time.Duration (not a nil pointer or interface).
+func durationOf(v reflect.Value) (time.Duration, bool) {
+	if !v.IsValid() || v.Kind() == reflect.Ptr || v.Kind() == reflect.Interface {
+		return 0, false
+	}
+	d, ok := v.Interface().(time.Duration)
+	return d, ok
+}
+
 func validatePositive(v interface{}, _ string) error {
 	if v == nil {
 		return nil
 	}
 
-	if d, ok := v.(time.Duration); ok {
+	// the validator is about the value: look through pointers, like nonzero does
+	val := chaseValue(reflect.ValueOf(v))
+	if d, ok := durationOf(val); ok {
 		if d < 0 {
 			return ErrNegative
 		}
 		return nil
 	}
 
-	val := reflect.ValueOf(v)
 	switch val.Kind() {
 	case reflect.Int, reflect.Int8, reflect.Int16, reflect.Int32, reflect.Int64:
 		if val.Int() >= 0 {
@@ -285,7 +295,8 @@ func validateMin(v interface{}, param string) error {
 		return nil
 	}
 
-	if d, ok := v.(time.Duration); ok {
+	val := chaseValue(reflect.ValueOf(v))
+	if d, ok := durationOf(val); ok {
 		min, err := param2Duration(param)
 		if err != nil {
 			return err
@@ -297,7 +308,6 @@ func validateMin(v interface{}, param string) error {
 		return nil
 	}
 
-	val := reflect.ValueOf(v)
 	switch val.Kind() {
 	case reflect.Int, reflect.Int8, reflect.Int16, reflect.Int32, reflect.Int64:
 		min, err := strconv.ParseInt(param, 0, 64)
@@ -335,7 +345,8 @@ func validateMax(v interface{}, param string) error {
 		return nil
 	}
 
-	if d, ok := v.(time.Duration); ok {
+	val := chaseValue(reflect.ValueOf(v))
+	if d, ok := durationOf(val); ok {
 		max, err := param2Duration(param)
 		if err != nil {
 			return err
@@ -347,7 +358,6 @@ func validateMax(v interface{}, param string) error {
 		return nil
 	}
 
-	val := reflect.ValueOf(v)
 	switch val.Kind() {
 	case reflect.Int, reflect.Int8, reflect.Int16, reflect.Int32, reflect.Int64:
 		max, err := strconv.ParseInt(param, 0, 64)
